@@ -60,9 +60,10 @@ def run(item):
         outs = []
         if item["mode"] == "badopt":
             c = item["h"][0]
-            kw = {c["a"]: c["v"]}
+            kw = dict(solver="CLARABEL")
+            kw[c["a"]] = c["v"]
             try:
-                outs.append(kind(pep.solve(verbose=0, solver="CLARABEL", **kw)))
+                outs.append(kind(pep.solve(verbose=0, **kw)))
             except Exception as e:
                 outs.append("raises:" + type(e).__name__)
             return dict(scn=scn, mode=item["mode"], h=item["h"], out=outs, solve="n/a")
